@@ -357,10 +357,215 @@ package parser
 //@ func parseTypeSystemDefinition
 //@   trusted
 //@   assigns class:parser.Parser.PrevEnd, class:parser.Parser.Token, class:ast., class:E|
-//@ func parseStringLiteral
-//@   trusted
-//@   assigns class:parser.Parser.PrevEnd, class:parser.Parser.Token, class:ast., class:E|
 //@ func unexpectedEmpty
 //@   trusted
 //@   assigns nothing
 //@   ensures result != nil
+
+// ---- the type-system productions (C03) ----
+// SchemaDefinition : schema Directives? { OperationTypeDefinition+ }
+//@ func parseSchemaDefinition
+//@   props C03 C18
+//@   nosafety
+//@   assigns class:parser.Parser.PrevEnd, class:parser.Parser.Token, class:ast., class:E|
+//@   requires parser != nil && parser.Source != nil
+//@   at call expectKeyWord: assert arg1 == "schema" && calls("parseDirectives") == 0
+//@   at call parseDirectives: assert calls("expectKeyWord") == 1 && calls("reverse") == 0
+//@   at call reverse: assert arg1 == lexer.BRACE_L && arg3 == lexer.BRACE_R && arg4 && calls("parseDirectives") == 1
+//@   at call NewSchemaDefinition: assert arg0.Directives == directives && arg0.OperationTypes == operationTypes
+// OperationTypeDefinition : OperationType : NamedType
+//@ func parseOperationTypeDefinition
+//@   props C03 C18
+//@   nosafety
+//@   assigns class:parser.Parser.PrevEnd, class:parser.Parser.Token, class:ast., class:E|
+//@   requires parser != nil && parser.Source != nil
+//@   at call parseOperationType: assert calls("expect") == 0
+//@   at call expect: assert arg1 == lexer.COLON && calls("parseOperationType") == 1 && calls("parseNamed") == 0
+//@   at call parseNamed: assert calls("expect") == 1
+//@   at call NewOperationTypeDefinition: assert arg0.Operation == operation && arg0.Type == ttype
+// ScalarTypeDefinition : Description? scalar Name Directives?
+//@ func parseScalarTypeDefinition
+//@   props C03 C18
+//@   nosafety
+//@   assigns class:parser.Parser.PrevEnd, class:parser.Parser.Token, class:ast., class:E|
+//@   requires parser != nil && parser.Source != nil
+//@   at call parseDescription: assert calls("expectKeyWord") == 0
+//@   at call expectKeyWord: assert arg1 == "scalar" && calls("parseDescription") == 1 && calls("parseName") == 0
+//@   at call parseName: assert calls("expectKeyWord") == 1 && calls("parseDirectives") == 0
+//@   at call parseDirectives: assert calls("parseName") == 1
+//@   at call NewScalarDefinition: assert arg0.Name == name && arg0.Description == description && arg0.Directives == directives
+// ObjectTypeDefinition : Description? type Name ImplementsInterfaces? Directives? { FieldDefinition* }  (legacy SDL: the field list may be empty)
+//@ func parseObjectTypeDefinition
+//@   props C03 C18
+//@   nosafety
+//@   assigns class:parser.Parser.PrevEnd, class:parser.Parser.Token, class:ast., class:E|
+//@   requires parser != nil && parser.Source != nil
+//@   at call parseDescription: assert calls("expectKeyWord") == 0
+//@   at call expectKeyWord: assert arg1 == "type" && calls("parseDescription") == 1 && calls("parseName") == 0
+//@   at call parseName: assert calls("expectKeyWord") == 1 && calls("parseImplementsInterfaces") == 0
+//@   at call parseImplementsInterfaces: assert calls("parseName") == 1 && calls("parseDirectives") == 0
+//@   at call parseDirectives: assert calls("parseImplementsInterfaces") == 1 && calls("reverse") == 0
+//@   at call reverse: assert arg1 == lexer.BRACE_L && arg3 == lexer.BRACE_R && calls("parseDirectives") == 1
+//@   at call NewObjectDefinition: assert arg0.Name == name && arg0.Description == description && arg0.Interfaces == interfaces && arg0.Directives == directives && arg0.Fields == fields
+// FieldDefinition : Description? Name ArgumentsDefinition? : Type Directives?
+//@ func parseFieldDefinition
+//@   props C03 C18
+//@   nosafety
+//@   assigns class:parser.Parser.PrevEnd, class:parser.Parser.Token, class:ast., class:E|
+//@   requires parser != nil && parser.Source != nil
+//@   at call parseDescription: assert calls("parseName") == 0
+//@   at call parseName: assert calls("parseDescription") == 1 && calls("parseArgumentDefs") == 0
+//@   at call parseArgumentDefs: assert calls("parseName") == 1 && calls("expect") == 0
+//@   at call expect: assert arg1 == lexer.COLON && calls("parseArgumentDefs") == 1 && calls("parseType") == 0
+//@   at call parseType: assert calls("expect") == 1 && calls("parseDirectives") == 0
+//@   at call parseDirectives: assert calls("parseType") == 1
+//@   at call NewFieldDefinition: assert arg0.Name == name && arg0.Description == description && arg0.Arguments == args && arg0.Type == ttype && arg0.Directives == directives
+// ArgumentsDefinition : ( InputValueDefinition+ ) (optional)
+//@ func parseArgumentDefs
+//@   props C03 C18
+//@   nosafety
+//@   assigns class:parser.Parser.PrevEnd, class:parser.Parser.Token, class:ast., class:E|
+//@   requires parser != nil && parser.Source != nil
+//@   at call peek: assert arg1 == lexer.PAREN_L
+//@   at call reverse: assert arg1 == lexer.PAREN_L && arg3 == lexer.PAREN_R && arg4 && parser.Token.Kind == lexer.PAREN_L
+//@   ensures old(parser.Token.Kind) != lexer.PAREN_L ==> result1 == nil && len(result0) == 0 && calls("reverse") == 0
+// InputValueDefinition : Description? Name : Type DefaultValue? Directives?
+//@ func parseInputValueDef
+//@   props C03 C18
+//@   nosafety
+//@   assigns class:parser.Parser.PrevEnd, class:parser.Parser.Token, class:ast., class:E|
+//@   requires parser != nil && parser.Source != nil
+//@   at call parseDescription: assert calls("parseName") == 0
+//@   at call parseName: assert calls("parseDescription") == 1 && calls("expect") == 0
+//@   at call expect: assert arg1 == lexer.COLON && calls("parseName") == 1 && calls("parseType") == 0
+//@   at call parseType: assert calls("expect") == 1 && calls("skip") == 0
+//@   at call skip: assert arg1 == lexer.EQUALS && calls("parseType") == 1
+//@   at call parseConstValue: assert lastresult("skip")
+//@   at call parseDirectives: assert calls("skip") == 1
+//@   at call NewInputValueDefinition: assert arg0.Name == name && arg0.Description == description && arg0.Type == ttype && arg0.DefaultValue == defaultValue && arg0.Directives == directives
+// InterfaceTypeDefinition : Description? interface Name Directives? { FieldDefinition* }
+//@ func parseInterfaceTypeDefinition
+//@   props C03 C18
+//@   nosafety
+//@   assigns class:parser.Parser.PrevEnd, class:parser.Parser.Token, class:ast., class:E|
+//@   requires parser != nil && parser.Source != nil
+//@   at call parseDescription: assert calls("expectKeyWord") == 0
+//@   at call expectKeyWord: assert arg1 == "interface" && calls("parseDescription") == 1 && calls("parseName") == 0
+//@   at call parseName: assert calls("expectKeyWord") == 1 && calls("parseDirectives") == 0
+//@   at call parseDirectives: assert calls("parseName") == 1 && calls("reverse") == 0
+//@   at call reverse: assert arg1 == lexer.BRACE_L && arg3 == lexer.BRACE_R && calls("parseDirectives") == 1
+//@   at call NewInterfaceDefinition: assert arg0.Name == name && arg0.Description == description && arg0.Directives == directives && arg0.Fields == fields
+// UnionTypeDefinition : Description? union Name Directives? = UnionMembers
+//@ func parseUnionTypeDefinition
+//@   props C03 C18
+//@   nosafety
+//@   assigns class:parser.Parser.PrevEnd, class:parser.Parser.Token, class:ast., class:E|
+//@   requires parser != nil && parser.Source != nil
+//@   at call parseDescription: assert calls("expectKeyWord") == 0
+//@   at call expectKeyWord: assert arg1 == "union" && calls("parseDescription") == 1 && calls("parseName") == 0
+//@   at call parseName: assert calls("expectKeyWord") == 1 && calls("parseDirectives") == 0
+//@   at call parseDirectives: assert calls("parseName") == 1 && calls("expect") == 0
+//@   at call expect: assert arg1 == lexer.EQUALS && calls("parseDirectives") == 1 && calls("parseUnionMembers") == 0
+//@   at call parseUnionMembers: assert calls("expect") == 1
+//@   at call NewUnionDefinition: assert arg0.Name == name && arg0.Description == description && arg0.Directives == directives && arg0.Types == types
+// UnionMembers : NamedType | UnionMembers `|` NamedType
+//@ func parseUnionMembers
+//@   props C03 C18
+//@   nosafety
+//@   assigns class:parser.Parser.PrevEnd, class:parser.Parser.Token, class:ast., class:E|
+//@   requires parser != nil && parser.Source != nil
+//@   at call skip: assert arg1 == lexer.PIPE
+//@   loop 1 ensures len(members) == atloop(1, len(members)) + 1 && calls("parseNamed") == atloop(1, calls("parseNamed")) + 1 && lastresult("skip")
+//@   ensures result1 == nil ==> len(result0) >= 1
+// EnumTypeDefinition : Description? enum Name Directives? { EnumValueDefinition+ }
+//@ func parseEnumTypeDefinition
+//@   props C03 C18
+//@   nosafety
+//@   assigns class:parser.Parser.PrevEnd, class:parser.Parser.Token, class:ast., class:E|
+//@   requires parser != nil && parser.Source != nil
+//@   at call parseDescription: assert calls("expectKeyWord") == 0
+//@   at call expectKeyWord: assert arg1 == "enum" && calls("parseDescription") == 1 && calls("parseName") == 0
+//@   at call parseName: assert calls("expectKeyWord") == 1 && calls("parseDirectives") == 0
+//@   at call parseDirectives: assert calls("parseName") == 1 && calls("reverse") == 0
+//@   at call reverse: assert arg1 == lexer.BRACE_L && arg3 == lexer.BRACE_R && arg4 && calls("parseDirectives") == 1
+//@   at call NewEnumDefinition: assert arg0.Name == name && arg0.Description == description && arg0.Directives == directives && arg0.Values == values
+// EnumValueDefinition : Description? EnumValue Directives?
+//@ func parseEnumValueDefinition
+//@   props C03 C18
+//@   nosafety
+//@   assigns class:parser.Parser.PrevEnd, class:parser.Parser.Token, class:ast., class:E|
+//@   requires parser != nil && parser.Source != nil
+//@   at call parseDescription: assert calls("parseName") == 0
+//@   at call parseName: assert calls("parseDescription") == 1 && calls("parseDirectives") == 0
+//@   at call parseDirectives: assert calls("parseName") == 1
+//@   at call NewEnumValueDefinition: assert arg0.Name == name && arg0.Description == description && arg0.Directives == directives
+// InputObjectTypeDefinition : Description? input Name Directives? { InputValueDefinition+ }
+//@ func parseInputObjectTypeDefinition
+//@   props C03 C18
+//@   nosafety
+//@   assigns class:parser.Parser.PrevEnd, class:parser.Parser.Token, class:ast., class:E|
+//@   requires parser != nil && parser.Source != nil
+//@   at call parseDescription: assert calls("expectKeyWord") == 0
+//@   at call expectKeyWord: assert arg1 == "input" && calls("parseDescription") == 1 && calls("parseName") == 0
+//@   at call parseName: assert calls("expectKeyWord") == 1 && calls("parseDirectives") == 0
+//@   at call parseDirectives: assert calls("parseName") == 1 && calls("reverse") == 0
+//@   at call reverse: assert arg1 == lexer.BRACE_L && arg3 == lexer.BRACE_R && arg4 && calls("parseDirectives") == 1
+//@   at call NewInputObjectDefinition: assert arg0.Name == name && arg0.Description == description && arg0.Directives == directives && arg0.Fields == fields
+// TypeExtensionDefinition : extend ObjectTypeDefinition
+//@ func parseTypeExtensionDefinition
+//@   props C03 C18
+//@   nosafety
+//@   assigns class:parser.Parser.PrevEnd, class:parser.Parser.Token, class:ast., class:E|
+//@   requires parser != nil && parser.Source != nil
+//@   at call expectKeyWord: assert arg1 == "extend" && calls("parseObjectTypeDefinition") == 0
+//@   at call parseObjectTypeDefinition: assert calls("expectKeyWord") == 1
+//@   at call NewTypeExtensionDefinition: assert typeis(definition, "*ast.ObjectDefinition") && arg0.Definition == as(definition, "*ast.ObjectDefinition")
+// DirectiveDefinition : Description? directive @ Name ArgumentsDefinition? on DirectiveLocations
+//@ func parseDirectiveDefinition
+//@   props C03 C18
+//@   nosafety
+//@   assigns class:parser.Parser.PrevEnd, class:parser.Parser.Token, class:ast., class:E|
+//@   requires parser != nil && parser.Source != nil
+//@   at call parseDescription: assert calls("expectKeyWord") == 0
+//@   at call expectKeyWord#1: assert arg1 == "directive" && calls("parseDescription") == 1 && calls("expect") == 0
+//@   at call expect: assert arg1 == lexer.AT && calls("expectKeyWord") == 1 && calls("parseName") == 0
+//@   at call parseName: assert calls("expect") == 1 && calls("parseArgumentDefs") == 0
+//@   at call parseArgumentDefs: assert calls("parseName") == 1 && calls("expectKeyWord") == 1
+//@   at call expectKeyWord#2: assert arg1 == "on" && calls("parseArgumentDefs") == 1 && calls("parseDirectiveLocations") == 0
+//@   at call parseDirectiveLocations: assert calls("expectKeyWord") == 2
+//@   at call NewDirectiveDefinition: assert arg0.Name == name && arg0.Description == description && arg0.Arguments == args && arg0.Locations == locations
+// DirectiveLocations : Name | DirectiveLocations `|` Name
+//@ func parseDirectiveLocations
+//@   props C03 C18
+//@   nosafety
+//@   assigns class:parser.Parser.PrevEnd, class:parser.Parser.Token, class:ast., class:E|
+//@   requires parser != nil && parser.Source != nil
+//@   at call skip: assert arg1 == lexer.PIPE
+//@   loop 1 ensures len(locations) == atloop(1, len(locations)) + 1 && calls("parseName") == atloop(1, calls("parseName")) + 1 && lastresult("skip")
+//@   ensures result1 == nil ==> len(result0) >= 1
+// ImplementsInterfaces : implements `&`? NamedType | ImplementsInterfaces & NamedType
+//@ func parseImplementsInterfaces
+//@   props C03 C18
+//@   nosafety
+//@   assigns class:parser.Parser.PrevEnd, class:parser.Parser.Token, class:ast., class:E|
+//@   requires parser != nil && parser.Source != nil
+//@   at call advance: assert parser.Token.Value == "implements"
+//@   at call skip: assert arg1 == lexer.AMP
+//@   at call parseNamed: assert calls("advance") == 1
+//@   ensures old(parser.Token.Value) != "implements" ==> result1 == nil && len(result0) == 0 && calls("advance") == 0
+// Description : StringValue (optional)
+//@ func parseDescription
+//@   props C03 C18
+//@   nosafety
+//@   assigns class:parser.Parser.PrevEnd, class:parser.Parser.Token, class:ast., class:E|
+//@   requires parser != nil && parser.Source != nil
+//@   at call parseStringLiteral: assert parser.Token.Kind == lexer.STRING || parser.Token.Kind == lexer.BLOCK_STRING
+//@   ensures old(parser.Token.Kind) != lexer.STRING && old(parser.Token.Kind) != lexer.BLOCK_STRING ==> result0 == nil && result1 == nil && parser.Token == old(parser.Token)
+// StringValue: the token itself
+//@ func parseStringLiteral
+//@   props C03 C18
+//@   nosafety
+//@   assigns class:parser.Parser.PrevEnd, class:parser.Parser.Token, class:ast., class:E|
+//@   requires parser != nil && parser.Source != nil
+//@   at call NewStringValue: assert arg0.Value == old(parser.Token.Value)
+//@   ensures result1 == nil && result0.Loc != nil ==> result0.Loc.Start == old(parser.Token.Start) && result0.Loc.End == old(parser.Token.End)
